@@ -95,7 +95,7 @@ def observe(lat, op):
 
 def make_lattice(arr, variant):
     pos, edges, crossing = arr
-    lat = Lattice(pos.copy(), edges.copy(), crossing.copy())
+    lat = Lattice(*layout_variant(pos, edges, crossing)[:3])
     if variant == "unpickled":
         lat = pickle.loads(pickle.dumps(lat))
     return lat
